@@ -162,6 +162,8 @@ ParameterList DownhillSimplexMethod::getPSum()
   // ... and initializes it.
   for (size_t j = 0; j < ndim; j++)
   {
+    // This is a sum of coordinates, not a point: it must not be subject to the parameter's constraint.
+    pSum[j].removeConstraint();
     double sum = 0.;
     for (size_t i = 0; i < mpts; i++)
     {
